@@ -638,9 +638,15 @@ def run_grid_real(case: dict[str, Any]) -> dict[str, Any]:
         return 0.0
 
     crashed = None
-    for k in case["ks"]:
+    for ki, k in enumerate(case["ks"]):
         if study._stop_flag:
             break
+        if ki > 0 and case["rng_seed"] % 2 == 0:
+            # resumed by a *new* sampler object built the same way (a restarted process / load_study):
+            # the grid ids stored in the trials must mean the same cells to it
+            sampler2 = GridSampler(space, seed=case["seed"])
+            sampler2._rng = LazyStub(rec)  # type: ignore[assignment]
+            study.sampler = sampler2
         try:
             study.optimize(objective, n_trials=k, catch=(HFail,))
         except (HRaise, KeyboardInterrupt):
